@@ -1,4 +1,6 @@
 """C01 — a configuration's identifier is a pure function of its content."""
-FUNCS = ["ConfigPath.detect_loop", "HashComputer.compute"]
+FUNCS = ["ConfigPath.detect_loop", "HashComputer.compute", "HashComputer.update", "HashComputer._hashupdate"]
 LEVEL = "proof"
 TRUSTED = []
+from bounded.identifiers import run_c01
+BOUNDED = [("spec vs real identifiers, all request orders, hash seeds", run_c01)]
